@@ -143,6 +143,8 @@ def new_domain(ctx, cls: str, univ, n, contig: bool, pos=None, extra2=None, name
     _domains(ctx, cb).append(d)
     if n is not None:
         ctx.assume(n >= 0)
+        if contig:
+            ctx.assume((n == 0) == (univ == z3.K(INT, z3.BoolVal(False))))     # length 0 <=> no element
     return d
 
 
@@ -252,7 +254,12 @@ def comprehension(I, what, node, rl, env):
                     ctx.assume(m <= rl.fields["n"])
                 out.fields["n"] = m
             return out
-        raise Unsupported("forest: list comprehension producing something other than the elements themselves")
+        v = I.force(v)
+        if isinstance(v, SInt):
+            # a list of integers computed pointwise from the elements: only its bag of values is modelled (max/min/in)
+            return TheoryObj("intbag", fields={"rl": rl, "sel": z3.Lambda([a], sel), "val": z3.Lambda([a], v.z), "extra": [],
+                                               "__overloads__": True})
+        raise Unsupported("forest: list comprehension producing something other than the elements themselves or integers")
     if what == "set":
         v = I.force(pure_eval(I, node.elt, env, g.target, elem))
         vz = to_z3(v)
@@ -528,6 +535,46 @@ def b_max(I, rl, kw):
     return ref_of(rl, r)
 
 
+def _bag_concat(I, bag, other, other_first):
+    other = I.force(other)
+    if isinstance(other, PList) and all(isinstance(I.force(x), (int, SInt)) and not isinstance(I.force(x), bool) for x in other.items):
+        f2 = dict(bag.fields)
+        f2["extra"] = list(bag.fields["extra"]) + [pyops.int_z(I.force(x)) for x in other.items]
+        return TheoryObj("intbag", fields=f2)
+    raise Unsupported("forest: concatenation of an integer bag with something else than a list of ints")
+
+
+def bag_minmax(I, bag, is_max, kw):
+    ctx = I.ctx
+    rl = bag.fields["rl"]
+    cls = rl.fields["cls"]
+    extra = bag.fields["extra"]
+    sel, val = bag.fields["sel"], bag.fields["val"]
+    ne = nonempty_witness(I, rl)
+    r = ctx.fresh_int("max" if is_max else "min")
+    e = ctx.fresh_int("arg")
+    know(ctx, cls, e)
+    cmp_ = (lambda x, y: x <= y) if is_max else (lambda x, y: x >= y)
+    if not extra:
+        w = ctx.fresh_int("some")
+        know(ctx, cls, w)
+        if not ctx.decide(z3.Select(sel, w), "bag-nonempty"):
+            # no selected element is known to exist: the bag may be empty
+            if ctx.flip("bag-empty"):
+                for t in list(_terms(ctx, base_cls(cls))):
+                    ctx.assume(z3.Not(z3.Select(sel, t)))
+                if "default" in kw:
+                    return kw["default"]
+                raise PyExc("ValueError", "max()/min() of an empty sequence")
+    ctx.assume(z3.Or(z3.And(z3.Select(sel, e), r == z3.Select(val, e)), *[r == x for x in extra]))
+    for x in extra:
+        ctx.assume(cmp_(x, r))
+    for t in list(_terms(ctx, base_cls(cls))):
+        ctx.assume(z3.Implies(z3.Select(sel, t), cmp_(z3.Select(val, t), r)))
+    ctx.ghost.setdefault("forest_bag_bounds", []).append((sel, val, r, is_max))
+    return SInt(r)
+
+
 # --------------------------------------------------------------------------------------------- deepcopy
 def deepcopy_reflist(I, rl):
     ctx = I.ctx
@@ -632,7 +679,7 @@ def for_cut(I, node, env, spec, rl):
 def install(reg):
     from ..values import Builtin
     B = reg.builtins
-    prev = {k: B[k] for k in ("len", "list", "sorted", "reversed", "enumerate", "max", "next", "all", "any")}
+    prev = {k: B[k] for k in ("len", "list", "sorted", "reversed", "enumerate", "max", "min", "next", "all", "any")}
 
     def over(name, fn):
         p = prev[name]
@@ -650,17 +697,41 @@ def install(reg):
     over("sorted", lambda I, v, a, k: b_sorted(I, v, k) if is_reflist(v) else NotImplemented)
     over("reversed", lambda I, v, a, k: b_reversed(I, v) if is_reflist(v) else NotImplemented)
     over("enumerate", lambda I, v, a, k: TheoryObj("reflist_enum", fields={"rl": v, "start": k.get("start", a[1] if len(a) > 1 else 0)}) if is_reflist(v) else NotImplemented)
-    over("max", lambda I, v, a, k: b_max(I, v, k) if is_reflist(v) and len(a) == 1 else NotImplemented)
+    isbag = lambda v: isinstance(v, TheoryObj) and v.theory == "intbag"
+    over("max", lambda I, v, a, k: b_max(I, v, k) if is_reflist(v) and len(a) == 1 else (bag_minmax(I, v, True, k) if isbag(v) and len(a) == 1 else NotImplemented))
+    over("min", lambda I, v, a, k: bag_minmax(I, v, False, k) if isbag(v) and len(a) == 1 else NotImplemented)
     isgen = lambda v: isinstance(v, TheoryObj) and v.theory == "reflist_gen"
     over("next", lambda I, v, a, k: b_next(I, v, a[1] if len(a) > 1 else None, len(a) > 1) if isgen(v) else NotImplemented)
     over("all", lambda I, v, a, k: b_all_any(I, v, False) if isgen(v) else NotImplemented)
     over("any", lambda I, v, a, k: b_all_any(I, v, True) if isgen(v) else NotImplemented)
     T = reg.theory_methods
     T[("reflist", "append")] = m_append
+    T[("intbag", "__add__")] = lambda I, o, a, k: _bag_concat(I, o, a[0], False)
+    T[("intbag", "__radd__")] = lambda I, o, a, k: _bag_concat(I, o, a[0], True)
     T[("reflist", "__delitem__")] = m_delitem
     T[("reflist", "__getitem__")] = m_getitem
     T[("reflist", "__len__")] = lambda I, o, a, k: b_len(I, o)
     T[("reflist", "copy")] = lambda I, o, a, k: b_list(I, o)
+    def set_minmax(is_max):
+        def fn(I, args, kw):
+            v = args[0]
+            if not isinstance(v, SSetZ) or v.kind != "int":
+                raise Unsupported("max/min over a symbolic collection other than a set of ints")
+            ctx = I.ctx
+            if not ctx.decide(v.z != z3.EmptySet(INT), "set-nonempty"):
+                if "default" in kw:
+                    return kw["default"]
+                raise PyExc("ValueError", "max()/min() of an empty set")
+            r = ctx.fresh_int("set_max" if is_max else "set_min")
+            ctx.assume(z3.IsMember(r, v.z))
+            for cb in ("Snapshot", "HistoryEntry"):
+                for t in list(_terms(ctx, cb)):
+                    ctx.assume(z3.Implies(z3.IsMember(t, v.z), (t <= r) if is_max else (t >= r)))
+            know(ctx, "Snapshot", r)
+            return SInt(r)
+        return fn
+    B["__max_symbolic__"] = Builtin("__max_symbolic__", set_minmax(True))
+    B["__min_symbolic__"] = Builtin("__min_symbolic__", set_minmax(False))
     B["__reflist_comprehension__"] = Builtin("__reflist_comprehension__", comprehension)
     B["__reflist_for__"] = Builtin("__reflist_for__", for_cut)
     B["__reflist_slice__"] = Builtin("__reflist_slice__", slice_)
